@@ -78,9 +78,10 @@ PROPS["C20"] = loop("fault_enumeration",
 
 PROPS["C17"] = {
     "engine": "systemd", "level": "exploration", "evaluations": ["patterns_lists"],
-    "rule": "one evaluation = one list of exclude patterns pushed through the real build_service_text and decoded back; exhaustive over every Unicode scalar value except NUL as a one-character pattern and over every pair (thorough: triple) of 44 syntax-relevant characters, plus seeded random strings and lists of 1-4 patterns (now and then 30-150), plus every word of a dictionary mined from the string literals of the repository's own sources (template fields, format placeholders, option names, paths) alone, embedded, between wildcards and in pairs; "
+    "rule": "one evaluation = one list of exclude patterns pushed through the real build_service_text and decoded back; exhaustive over every Unicode scalar value except NUL as a one-character pattern and over every pair (thorough: triple) of 44 syntax-relevant characters, plus seeded random strings and lists of 1-4 patterns (now and then 30-150), plus every word of a dictionary mined from the string literals of the repository's own sources (template fields, format placeholders, option names, paths) alone, embedded, between wildcards and in pairs, plus every literal spelling of an escape sequence of the target syntax and every 4-gram (thorough: 5-gram) over the 14 characters escapes are made of, plus every scalar value next to a numerically escaped character on either side; "
             "distinct = distinct pattern lists (every case differs from the identity encoding in at least the surrounding line, so all are non-trivial)",
-    "floors": {"quick": {"single_scalar_values": 1112063, "syntax_pairs": 1900, "long_pattern_lists": 1000, "dictionary_tokens": 500}, "thorough": {"single_scalar_values": 1112063, "syntax_triples": 85000, "long_pattern_lists": 50000, "dictionary_tokens": 500}},
+    "floors": {"quick": {"single_scalar_values": 1112063, "scalar_next_to_an_escape": 3336189, "syntax_pairs": 1900, "long_pattern_lists": 1000, "dictionary_tokens": 500, "literal_escape_spellings": 1200, "escape_alphabet_ngrams": 38416},
+               "thorough": {"single_scalar_values": 1112063, "scalar_next_to_an_escape": 3336189, "syntax_triples": 85000, "long_pattern_lists": 50000, "dictionary_tokens": 500, "literal_escape_spellings": 1200, "escape_alphabet_ngrams": 537824}},
     "assumptions": ["the decoder implements systemd's documented rules (word splitting on space/tab/newline/CR, quotes anywhere in a word, C unescaping with unknown escapes kept, %% and % specifiers, $$ / ${VAR} / whole-word $VAR against an empty environment)",
                     "the ';' command-separator rule is not modelled (not among the rules the property enumerates)"],
     "level_text": "Independent decoder of systemd's ExecStart rules applied to the text the real code generates; exact argv comparison, byte for byte. Exhaustive on single scalar values and on pairs of syntax-relevant characters, sampled beyond.",
@@ -134,9 +135,9 @@ PROPS["C14"] = {
 PROPS["C15"] = {
     "engine": "roundtrip", "level": "exploration", "evaluations": ["layouts_round_tripped"],
     "rule": "one evaluation = one basic layout written by the real write_layout_to_global_config to /etc/totalmapper.json (a tmpfs mounted over /etc in a private mount namespace) and read back by the real load_layout_from_file; mappings must be equal, in order; "
-            "exhaustive over the key codes (each as trigger, output, repeat key and absorbed modifier), plus the converter's output for the corpus and for generated shorthand programs, plus random basic layouts over all key codes with empty outputs, 0-3 key chords and extreme i32 repeat parameters; distinct = distinct layouts",
-    "floors": {"quick": {"per_key_code": 484, "converted_programs": 40000, "random_basic_layouts": 40000, "mappings_with_absorbing": 10000, "special_with_empty_chord": 1000, "big_layouts": 16, "ran_in_private_namespace": 16},
-               "thorough": {"per_key_code": 484, "converted_programs": 600000, "random_basic_layouts": 600000, "ran_in_private_namespace": 16}},
+            "exhaustive over the key codes (each as trigger, output, repeat key and absorbed modifier), plus the converter's output for the corpus and for generated shorthand programs (one in three damaged by structure-aware mutations first: whatever the loader still accepts has to round-trip too), plus random basic layouts over all key codes with empty outputs, 0-3 key chords and extreme i32 repeat parameters; distinct = distinct layouts",
+    "floors": {"quick": {"per_key_code": 484, "converted_programs": 40000, "random_basic_layouts": 40000, "mappings_with_absorbing": 10000, "special_with_empty_chord": 1000, "big_layouts": 16, "ran_in_private_namespace": 16, "mutated_programs_converting": 20000},
+               "thorough": {"mutated_programs_converting": 200000, "per_key_code": 484, "converted_programs": 600000, "random_basic_layouts": 600000, "ran_in_private_namespace": 16}},
     "assumptions": ["a tmpfs over /etc in a private mount namespace stands in for the real /etc (if the namespace cannot be created the same serialiser is used through a temp file and the evidence says so; the floor then fails)"],
     "level_text": "End-to-end differential on the real save and load code paths, exhaustive over the 484 key codes, sampled over layouts.",
     "level_note": "Trusted: the write_layout_to_global_config wrapper hook, PartialEq on Mapping.",
@@ -145,10 +146,10 @@ PROPS["C15"] = {
 }
 PROPS["C16"] = {
     "engine": "devices", "level": "exploration", "evaluations": ["texts", "e2e_all_keyboards_runs", "e2e_dev_file_runs", "e2e_list_keyboards_runs"],
-    "rule": "one evaluation = one generated /proc/bus/input/devices text (1-9 entries drawn from 33 realistic entries, renumbered, with names / key masks / event masks swapped and any field but the I: header dropped) through both real extractors (hook level), or one run of the real binary "
+    "rule": "one evaluation = one generated /proc/bus/input/devices text (1-9 entries drawn from 33 realistic entries, renumbered, with names / key masks / event masks swapped, key bitmaps synthesised as random subsets of a real keyboard's keys plus stray bits, and any field but the I: header dropped) through both real extractors (hook level), or one run of the real binary "
             "(list_keyboards, remap --all-keyboards --verbose, remap --only-if-keyboard --dev-file per device) in a private mount namespace with that text bound over /proc/bus/input/devices and fabricated /sys/devices and /dev/input; distinct = distinct texts",
-    "floors": {"quick": {"keyboard_entries_right_after_an_entry_with_a_missing_field": 5000, "exclude_sets_matching_1_device": 5000, "e2e_all_keyboards_runs": 500, "e2e_dev_file_runs": 2000, "e2e_virtual_keyboard_entries": 20, "e2e_excluded_keyboard_entries": 50, "ran_in_private_namespace": 16, "dictionary_tokens": 500, "related_pattern_lists": 5000},
-               "thorough": {"dictionary_tokens": 500, "keyboard_entries_right_after_an_entry_with_a_missing_field": 50000, "e2e_all_keyboards_runs": 10000, "e2e_dev_file_runs": 50000, "ran_in_private_namespace": 16}},
+    "floors": {"quick": {"keyboard_entries_right_after_an_entry_with_a_missing_field": 5000, "exclude_sets_matching_1_device": 5000, "e2e_all_keyboards_runs": 500, "e2e_dev_file_runs": 2000, "e2e_virtual_keyboard_entries": 20, "e2e_excluded_keyboard_entries": 50, "ran_in_private_namespace": 16, "dictionary_tokens": 500, "related_pattern_lists": 5000, "small_pattern_pairs": 115600, "synthesised_key_bitmaps": 100000},
+               "thorough": {"dictionary_tokens": 500, "small_pattern_pairs": 1860496, "synthesised_key_bitmaps": 1000000, "keyboard_entries_right_after_an_entry_with_a_missing_field": 50000, "e2e_all_keyboards_runs": 10000, "e2e_dev_file_runs": 50000, "ran_in_private_namespace": 16}},
     "assumptions": ["entries are delimited by the I: line, which the kernel always prints", "an entry's own classification (the extractor run on that entry alone) defines keyboard-like", "glob semantics of --exclude: * any sequence, ? one character, whole-name match"],
     "level_text": "Metamorphic (entry alone vs in context) and differential (two extractors, two CLI routes) monitors plus an independent glob matcher; the CLI routes are observed on the real binary in a fabricated namespace.",
     "level_note": "Trusted: the extractor / exclusion wrapper hooks, the parsing of the binary's --verbose output, the fabricated /proc, /sys and /dev trees.",
